@@ -8,6 +8,21 @@ func init() {
 	verifEntries["VerifC08Graveyard"] = VerifC08Graveyard
 }
 
+// c08observe: everything a snapshot shows of the table (objects by identity with
+// revisions through the primary and the revision index, counts, table revision,
+// number of retained deleted objects).
+func c08observe(t RWTable[*vobj], gt *genTable[*vobj], txn ReadTxn) *observation {
+	o := &observation{}
+	o.addSeq(t.All(txn))
+	o.addSeq(t.LowerBound(txn, ByRevision[*vobj](0)))
+	for _, k := range []string{"a", "b"} {
+		ob, rev, ok := t.Get(txn, vIDIndex.Query([]byte(k)))
+		o.addGet(ob, rev, ok)
+	}
+	o.nums = append(o.nums, uint64(t.NumObjects(txn)), t.Revision(txn), uint64(gt.numDeletedObjects(txn)))
+	return o
+}
+
 // VerifC08Graveyard: the real graveyard worker runs as a VM thread (virtual
 // time, rate limiter stubbed); a writer deletes / re-inserts keys, up to two
 // change iterators consume at symbolic points or are closed. With preemption
@@ -199,12 +214,23 @@ func VerifC08Graveyard() {
 			x.open = false
 			vnd.Cover("C08.closed")
 		case 4: // time passes: the collector may run
+			// a snapshot taken before the collection is frozen (C01: "graveyard collection
+			// ... cannot change that"), including what it retains of deleted objects
+			S := d.db.ReadTxn()
+			before := c08observe(t, gt, S)
 			vnd.Sleep(tick)
+			sameObs(before, c08observe(t, gt, S), "C08.gc.snapshot-frozen")
 			vnd.Cover("C08.gc-window")
 		}
 		// retained objects never appear in queries or counts
 		rt := d.db.ReadTxn()
 		vnd.Assert(t.NumObjects(rt) == committed.revs.Len(), "C08.count-excludes-graveyard")
+		// neither collection nor iterator bookkeeping is a write to the table
+		vnd.Assert(t.Revision(rt) == committed.rev, "C08.revision-unaffected")
+		{
+			ids, _, revs := collectObjs(t.All(rt))
+			committed.revs.CheckOrdered(ids, revs, vnd.SelAll, "C08.contents")
+		}
 		if gt.numDeletedObjects(rt) > 0 {
 			vnd.Cover("C08.retained")
 		}
